@@ -29,7 +29,7 @@ META = {
                  "(DAGs with shared sub-expressions) x which objects are wrapped in dask.delayed; replay into dask.delayed + TLC "
                  "validation of recorded programs",
     "level_text": "TLC enumerates every 1-operation program over all leaf sets (prefixes of 1, 2, 0 and a string, each wrapped or plain) "
-                  "and a hash-sampled (seeded, reproducible) part of the 2- and 3-operation programs (thorough: also 4) from value-directed "
+                  "and a hash-sampled (seeded, reproducible) part of the 2- and 3-operation programs (thorough: every program of <= 2 operations over <= 2 leaves, sampled 3- and 4-operation programs) from value-directed "
                   "menus: calls with positional/keyword arguments, nout, dask_key_name, containers of 7 kinds holding Delayed objects "
                   "(wrapped or passed plain), item/attribute access, method calls, operators incl. reflected ones. Design invariants "
                   "(IdentSound: equal key identity => equal value; BuildFree; NoutLen) are checked on every state. Each program is built "
@@ -286,8 +286,11 @@ def _fresh(nd):
     return nd["op"] in ("const", "cont") or (nd["op"] in ("call", "meth") and not nd["pure"] and not nd["dkn"])
 
 
-def classify(prog, clause):
-    """Signature: the failing clause and the construct classes the program combines (no numbers)."""
+def classify(prog, clause, variant=("def", "sync", False)):
+    """Signature: the failing clause and the construct classes the program combines (no numbers).
+    Input classes behind recorded known findings come first (one root cause = one signature)."""
+    if variant[2] and clause == "UnexpectedRaise" and any(nd["op"] == "getattr" for nd in prog):
+        return "fuse.delayed:getattr"
     feats = set()
     last = prog[-1]
     for nd in prog:
@@ -410,7 +413,14 @@ def random_program(rng, nops):
             if prog[a - 1]["op"] == "call" and prog[a - 1]["i"] and s < 0.5:
                 nd = node("nout", xs=[a], i=rng.randrange(prog[a - 1]["i"]))
             elif type(va) in (list, tuple, dict) and s < 0.6:
-                nd = node("getitem", xs=[a, pick()])
+                b = pick()
+                vb = vals[b - 1]
+                if type(va) is dict:
+                    if type(vb) not in (int, str):
+                        continue
+                elif not (type(vb) is int or (type(vb) is slice and all(type(e) in (int, type(None)) for e in (vb.start, vb.stop)))):
+                    continue            # list[True] is Python; the specification's domain is int / slice indices
+                nd = node("getitem", xs=[a, b])
             elif type(va) is Pt:
                 if s < 0.5:
                     nd = node("getattr", rng.choice(["x", "y"]), xs=[a])
@@ -451,14 +461,39 @@ def random_program(rng, nops):
     return prog
 
 
+def N(op, nm="", v=None, xs=(), kn=(), kx=(), w=False, pure=False, dkn="", i=0):
+    """A node (the record shape of DelayedProg.tla)."""
+    return {"op": op, "nm": nm, "v": v if v is not None else {"t": "none"}, "xs": list(xs), "kn": list(kn), "kx": list(kx),
+            "w": bool(w), "pure": bool(pure), "dkn": dkn, "i": i}
+
+
+def probe_programs():
+    """A few hand-written programs (decided by TLC like every recorded program): pure calls that differ only in a
+    keyword argument / in argument order, nout unpacking, a reflected operator, a Delayed slice bound, a Delayed dict key."""
+    one, two = {"t": "int", "v": 1}, {"t": "int", "v": 2}
+    return [
+        [N("const", v=one, w=True), N("const", v=two, w=True), N("call", "f1", kn=["k"], kx=[1], pure=True),
+         N("call", "f1", kn=["k"], kx=[2], pure=True), N("call", "f1", kn=["k"], kx=[1], pure=True), N("call", "f2", xs=[3, 4, 5], pure=True)],
+        [N("const", v=one, w=True), N("const", v=two), N("call", "f1", xs=[1, 2], pure=True), N("call", "f1", xs=[2, 1], pure=True),
+         N("call", "f1", xs=[1, 2], pure=True), N("call", "f2", xs=[3, 4, 5])],
+        [N("const", v=one, w=True), N("const", v=two), N("call", "tup", xs=[1, 2], i=2, pure=True), N("nout", xs=[3], i=0),
+         N("nout", xs=[3], i=1), N("call", "f1", xs=[4, 5], pure=True)],
+        [N("const", v=one, w=True), N("const", v=two), N("bin", "sub", xs=[2, 1]), N("bin", "sub", xs=[1, 2]), N("call", "f1", xs=[3, 4])],
+        [N("const", v=one, w=True), N("const", v=two), N("cont", "list", xs=[1, 2, 1]), N("cont", "slice", xs=[1, 2]),
+         N("cont", "list", xs=[3], w=True), N("cont", "dictk", xs=[1, 4]), N("call", "f1", xs=[5, 6], pure=True)],
+    ]
+
+
 def _record(item):
     i, prog, variant = item
     obs = observe(prog, variant)
     if "skip" in obs:
         return None
     obs = dict(obs)
-    obs.pop("msg", None)
-    return {"id": "r%d" % i, "prog": prog, "obs": obs, "variant": list(variant)}
+    msg = obs.pop("msg", "")
+    ref = eager_vals(prog)
+    return {"id": "r%d" % i, "prog": prog, "obs": obs, "ref": ref[-1] if ref is not None else {"t": "err"},
+            "variant": list(variant), "msg": msg}
 
 
 def flip_pure(prog, rng):
@@ -476,24 +511,24 @@ def flip_pure(prog, rng):
 INVS = ["InfoOK", "Sane", "NoErrors", "IdentSound", "BuildFree", "NoutLen", "NoutElems", "ImpureFresh"]
 
 
-def core(ctx, levels, cap, nrandom, rng, thorough=False):
-    """levels: list of (MaxLeaves, MaxOps, Rate, Pures).  Returns the number of violations found."""
-    before = len(ctx.violations)
-    total = 0
+def enumerate_programs(ctx, levels):
+    """spec -> code, step 1: the TLC runs (design check on every state + export)."""
     allcases = []
     for (ml, mo, rate, pures) in levels:
         spec, cfg = ctx.model(ctx.spec("graph", "DelayedProgMC.tla"),
                               {"MaxLeaves": ml, "MaxOps": mo, "Rate": TLA("<<" + ", ".join(map(str, rate)) + ">>"),
                                "Seed": ctx.seed + 1, "Pures": TLA(pures)}, invariants=INVS)
         cases, _ = ctx.tlc_cases(spec, cfg, label="design+programs:leaves<=%d,ops<=%d,rate=%s" % (ml, mo, rate), timeout=1500)
-        total += len(cases)
         allcases += cases
-    sampled = any(r < 1000 for (_, _, rate, _) in levels for r in rate)
-    if len(allcases) > cap:
-        sampled = True
-        allcases = rng.sample(allcases, cap)
+    ctx.extra["programs_enumerated_by_tlc"] = ctx.extra.get("programs_enumerated_by_tlc", 0) + len(allcases)
+    return allcases
+
+
+def replay_programs(ctx, cases, rng, thorough=False):
+    """spec -> code, step 2: build every program with dask.delayed, compare with the export."""
+    before = len(ctx.violations)
     items = []
-    for c in allcases:
+    for c in cases:
         if thorough:
             v = (rng.choice(["def", "call"]), "sync", rng.random() < 0.3)
         else:
@@ -509,41 +544,59 @@ def core(ctx, levels, cap, nrandom, rng, thorough=False):
             continue
         ctx.count(("mc", case["prog"], variant), nontrivial(case["prog"]))
         if cl:
-            ctx.violation(classify(case["prog"], cl), "%s: dask.delayed disagrees with the specification%s"
-                          % (cl, (" (%s: %s)" % (obs["raised"], obs["msg"])) if obs and obs["raised"] else ""),
+            ctx.violation(classify(case["prog"], cl, variant), "%s: dask.delayed disagrees with the specification%s"
+                          % (cl, (" (%s: %s)" % (obs["raised"], obs["msg"][:100])) if obs and obs["raised"] else ""),
                           {"kind": "mc", "case": case, "variant": list(variant), "observed": obs})
     if items:
         ctx.sample({"program": _show(items[len(items) // 2][0]["prog"]), "expected": items[len(items) // 2][0]["vals"][-1]})
         ctx.sample({"program": _show(items[-1][0]["prog"]), "expected": items[-1][0]["vals"][-1]})
-    # code -> spec
-    progs = [random_program(rng, rng.randint(4, 9)) for _ in range(nrandom)]
-    # ... and the enumerated programs again with other build flags (pure flags flipped per call)
-    extra = [flip_pure(c["prog"], rng) for c in (rng.sample(allcases, min(len(allcases), nrandom)) if allcases else [])]
+    ctx.extra["programs_replayed"] = ctx.extra.get("programs_replayed", 0) + len(items)
+    return len(ctx.violations) - before
+
+
+def record_programs(ctx, progs, rng, thorough=False):
+    """code -> spec: build + compute with dask, TLC decides every record."""
+    before = len(ctx.violations)
     todo = []
-    for i, p in enumerate(progs + extra):
+    for i, p in enumerate(progs):
         sched = "threads" if (thorough and i % 7 == 0) else "sync"
         todo.append((i, p, (rng.choice(["def", "call"]), sched, rng.random() < 0.25)))
     recs = [r for r in pmap(_record, todo, chunk=50, always=thorough) if r is not None]
     spec, cfg = ctx.model(ctx.spec("graph", "DelayedProgTrace.tla"), {})
     for lo in range(0, len(recs), 4000):
         part = recs[lo:lo + 4000]
-        rej = ctx.tlc_validate(spec, [{k: r[k] for k in ("id", "prog", "obs")} for r in part], cfg, timeout=1500)
+        rej = ctx.tlc_validate(spec, [{k: r[k] for k in ("id", "prog", "obs", "ref")} for r in part], cfg, timeout=1500)
         byid = {r["id"]: r for r in part}
         for r in part:
             ctx.count(("rec", r["prog"], r["variant"]), nontrivial(r["prog"]))
         for rid, clauses in rej.items():
             r = byid[rid]
             cl = clauses[0].strip('{} "').split('"')[0].split(",")[0] or "Rejected"
-            if cl == "NotAProgram":
-                raise MachineryError("the recorder produced a record that is not a program: %r" % (r["prog"],))
-            ctx.violation(classify(r["prog"], cl), "TLC rejects a recorded delayed program (%s)%s"
-                          % (clauses[0], (" raised " + r["obs"]["raised"]) if r["obs"]["raised"] else ""),
+            if "NotAProgram" in clauses[0] or "Guard" in clauses[0]:
+                raise MachineryError("recorded program outside the specification's domain, or the TLA+ reference disagrees with "
+                                     "eager Python (%s): %s ref=%r" % (clauses[0], _show(r["prog"]), r["ref"]))
+            ctx.violation(classify(r["prog"], cl, r["variant"]), "TLC rejects a recorded delayed program (%s)%s"
+                          % (clauses[0], (" raised %s: %s" % (r["obs"]["raised"], r["msg"][:80])) if r["obs"]["raised"] else ""),
                           {"kind": "rec", "record": r, "clauses": clauses})
     if recs:
         ctx.sample({"recorded_program": _show(recs[0]["prog"]), "variant": recs[0]["variant"]})
-    ctx.extra["programs_enumerated_by_tlc"] = ctx.extra.get("programs_enumerated_by_tlc", 0) + total
-    ctx.extra["programs_replayed"] = ctx.extra.get("programs_replayed", 0) + len(items)
     ctx.extra["programs_recorded"] = ctx.extra.get("programs_recorded", 0) + len(recs)
+    return len(ctx.violations) - before
+
+
+def core(ctx, levels, cap, nrandom, rng, thorough=False):
+    """levels: list of (MaxLeaves, MaxOps, Rate, Pures).  Returns (#violations, sampled?)."""
+    before = len(ctx.violations)
+    cases = enumerate_programs(ctx, levels)
+    sampled = any(r < 1000 for (_, _, rate, _) in levels for r in rate)
+    if len(cases) > cap:
+        sampled = True
+        cases = rng.sample(cases, cap)
+    replay_programs(ctx, cases, rng, thorough)
+    progs = [random_program(rng, rng.randint(4, 9)) for _ in range(nrandom)]
+    # ... and the enumerated programs again with other build flags (pure flags flipped per call)
+    progs += [flip_pure(c["prog"], rng) for c in (rng.sample(cases, min(len(cases), nrandom)) if cases else [])]
+    record_programs(ctx, progs, rng, thorough)
     return len(ctx.violations) - before, sampled
 
 
@@ -579,11 +632,11 @@ def _show(prog):
 
 def run(ctx):
     if ctx.quick:
-        levels = [(2, 3, [1000, 8, 40], "{TRUE}"), (3, 2, [1000, 12], "{TRUE}")]
-        cap, nrandom = 9000, 1200
+        levels = [(2, 3, [1000, 3, 110], "{TRUE}"), (3, 2, [200, 60], "{TRUE}")]
+        cap, nrandom = 9000, 800
     else:
-        levels = [(2, 2, [1000, 1000], "{TRUE}"), (3, 3, [1000, 30, 60], "{TRUE, FALSE}"), (3, 4, [300, 20, 12, 40], "{TRUE}")]
-        cap, nrandom = 120000, 12000
+        levels = [(2, 2, [1000, 1000], "{TRUE}"), (3, 3, [300, 8, 100], "{TRUE, FALSE}"), (2, 4, [1000, 3, 5, 100], "{TRUE}")]
+        cap, nrandom = 150000, 4000
     _, sampled = core(ctx, levels, cap, nrandom, ctx.rng, thorough=not ctx.quick)
     ctx.exhaustive = not sampled
     ctx.rule = ("a case = one program (TLC-grown, or seeded random with 4-9 operations) x build variant (pure at definition / at call, "
@@ -603,7 +656,7 @@ def replay(ctx, obj):
     r = c["record"]
     rec = _record((0, r["prog"], tuple(r["variant"])))
     spec, cfg = ctx.model(ctx.spec("graph", "DelayedProgTrace.tla"), {})
-    rej = ctx.tlc_validate(spec, [{k: rec[k] for k in ("id", "prog", "obs")}], cfg)
+    rej = ctx.tlc_validate(spec, [{k: rec[k] for k in ("id", "prog", "obs", "ref")}], cfg)
     print("program:", _show(r["prog"]), "\nobserved:", rec["obs"], "\nrejected:", rej)
     return bool(rej)
 
@@ -611,33 +664,39 @@ def replay(ctx, obj):
 def selftest(ctx):
     import glob
     import os
+    import sys
 
-    import dask.delayed as DD
+    import dask.delayed  # noqa: F401
     from ..mutate import source_mutant
+    DD = sys.modules["dask.delayed"]
     ok = True
-    levels = [(2, 2, [1000, 25], "{TRUE}")]
     rdir = os.path.join(os.path.dirname(os.path.dirname(os.path.dirname(os.path.abspath(__file__)))), "replays")
     before = set(glob.glob(os.path.join(rdir, "C15-*.json")))
+    cases = enumerate_programs(ctx, [(2, 2, [1000, 12], "{TRUE}")])
+    cases = random.Random(5).sample(cases, min(len(cases), 900))
+    rprogs = probe_programs() + [random_program(random.Random(7 + i), 6) for i in range(120)]
 
-    def attempt(name):
-        n, _ = core(ctx, levels, 2500, 250, random.Random(5))
+    def attempt(name, with_records=False):
+        n = replay_programs(ctx, cases, random.Random(5))
+        if with_records:
+            n += record_programs(ctx, rprogs, random.Random(5))
         sigs = sorted({s for s, _, _ in ctx.violations})
         del ctx.violations[:]
         ctx.viol_count.clear()
         print("mutant %s: %s (%d violations; e.g. %s)" % (name, "DETECTED" if n else "MISSED", n, sigs[:3]))
         return n > 0
 
-    # baseline: the unchanged code passes the same small run
-    n, _ = core(ctx, levels, 2500, 250, random.Random(5))
-    print("unchanged dask on the self-test case set: %d violations" % n)
+    # baseline: the unchanged code passes the same case set (both directions)
+    n = replay_programs(ctx, cases, random.Random(5)) + record_programs(ctx, rprogs, random.Random(5))
+    print("unchanged dask on the self-test case set (%d programs + %d recorded): %d violations" % (len(cases), len(rprogs), n))
     ok &= n == 0
     # mutant 1: dict arguments lose the pairing of keys and values (values reversed)
     with source_mutant(DD, "unpack_collections", "args = Dict([[k, v] for k, v in zip(keyargs, valargs)])",
                        "args = Dict([[k, v] for k, v in zip(keyargs, list(valargs)[::-1])])"):
         ok &= attempt("dict-values-reversed")
-    # mutant 2: keyword arguments do not take part in the pure token
+    # mutant 2: keyword arguments do not take part in the pure token (found by TLC on recorded keys as well)
     with source_mutant(DD, "call_function", "tokenize(func_token, *args, pure=pure, **kwargs)", "tokenize(func_token, *args, pure=pure)"):
-        ok &= attempt("pure-token-ignores-kwargs")
+        ok &= attempt("pure-token-ignores-kwargs", with_records=True)
     # mutant 3: the reflected operator is not swapped (2 - d computes d - 2)
     orig = DD.Delayed.__rsub__, DD.Delayed.__rfloordiv__
     DD.Delayed.__rsub__, DD.Delayed.__rfloordiv__ = DD.Delayed.__sub__, DD.Delayed.__floordiv__
@@ -659,7 +718,7 @@ def selftest(ctx):
             yield self[min(i + 1, self._length - 1)]
     DD.Delayed.__iter__ = bad_iter
     try:
-        ok &= attempt("nout-iteration-off-by-one")
+        ok &= attempt("nout-iteration-off-by-one", with_records=True)
     finally:
         DD.Delayed.__iter__ = orig_iter
     # binding of the trace spec: an untouched record is accepted, corrupted fields are rejected
@@ -669,8 +728,7 @@ def selftest(ctx):
         prog = random_program(rng, 6)
     rec = _record((0, prog, ("def", "sync", False)))
     spec, cfg = ctx.model(ctx.spec("graph", "DelayedProgTrace.tla"), {})
-    base = {k: rec[k] for k in ("id", "prog", "obs")}
-    good = ctx.tlc_validate(spec, [base], cfg)
+    base = {k: rec[k] for k in ("id", "prog", "obs", "ref")}
     bad1 = json.loads(json.dumps(base))
     bad1["id"] = "v"
     bad1["obs"]["val"] = {"t": "list", "xs": [bad1["obs"]["val"]]}
@@ -679,10 +737,10 @@ def selftest(ctx):
     i = [j for j, nd in enumerate(prog) if nd["op"] == "call" and nd["pure"] and not nd["dkn"]][0]
     other = [j for j in range(len(prog)) if j != i and bad2["obs"]["keys"][j] != 0][0]
     bad2["obs"]["keys"][i] = bad2["obs"]["keys"][other]
-    rej = ctx.tlc_validate(spec, [bad1, bad2], cfg)
+    rej = ctx.tlc_validate(spec, [base, bad1, bad2], cfg)
     print("untouched record: %s; corrupted value: %s; corrupted key class: %s"
-          % ("accepted" if not good else "REJECTED " + str(good), rej.get("v", "accepted"), rej.get("k", "accepted")))
-    ok &= (not good) and "v" in rej and "k" in rej
+          % (rej.get("r0", "accepted"), rej.get("v", "accepted"), rej.get("k", "accepted")))
+    ok &= "r0" not in rej and "v" in rej and "k" in rej
     for f in set(glob.glob(os.path.join(rdir, "C15-*.json"))) - before:
         os.remove(f)
     return 0 if ok else 1
